@@ -144,6 +144,7 @@ type c17Reg struct {
 
 type c17Party struct {
 	name    string
+	ln      *test.MockLightning
 	nodeKey *btcec.PublicKey
 	node33  [33]byte
 	wallet  *c17Wallet
@@ -167,10 +168,11 @@ func c17NewParty(name string, seed byte, db *clientdb.DB) *c17Party {
 	p.wallet = &c17Wallet{MockWalletKit: test.NewMockWalletKit(), seed: seed}
 	p.base = &c17Base{}
 	p.acc = pool.NewChannelAcceptor(nil)
+	p.ln = test.NewMockLightning()
 	p.mgr = funding.NewManager(&funding.ManagerConfig{
 		DB:               db,
 		WalletKit:        p.wallet,
-		LightningClient:  test.NewMockLightning(),
+		LightningClient:  p.ln,
 		BaseClient:       p.base,
 		SignerClient:     test.NewMockSigner(),
 		NodePubKey:       p.nodeKey,
